@@ -59,7 +59,11 @@ RULE = ("period cases: 1-2 limiters (period 1..60 s, quota 0..8, 25% Align()), 1
         "(quick: two with 200 ms client timeouts and one with the 3 s defaults = about 12 s for the request that runs into it, driven in a process of its own next to the others; thorough: four short and one default: the server accepts "
         "every command and never answers), with deadlines expiring while the EVAL is in flight on a healthy Redis (also 3% "
         "of the random requests) and with window-edge histories on servers one hour ahead of / behind the callers' wall "
-        "clock, with 8/16/32 concurrent callers whose script calls are all in flight at once on a slow healthy Redis (pre-hook "
+        "clock, with another handle to the same address piling up 400 WRONGTYPE errors (first cases of the run; also 10% of "
+        "the random cases), with Align() limiters that live through 1-11 s of real time between construction, takes and "
+        "windows (server stepped to each window's aligned end +-1 ms), with the forced recovery race (late failure queued on "
+        "rescueLock ahead of the monitor's deferred reset; alive-or-monitored asserted at every quiescent point), "
+        "with 8/16/32 concurrent callers whose script calls are all in flight at once on a slow healthy Redis (pre-hook "
         "barrier; also 30% of the random concurrent ops), with takes whose caller's context is cancelled at the moment the "
         "take reaches the server (first take of a window; also 4% of the random takes) and with staircase histories (a too "
         "large request refused, smaller fitting ones in the same second granted; also 5% of the random cases) (60% of the random period cases run on such a skewed real clock: 0, +-7 s, +-1 h, +-400 d); the server that comes back is in 40% of the recoveries a REPLACEMENT (old miniredis "
